@@ -282,6 +282,9 @@ class C16Transformed(Harness):
                     continue
                 yield f"tr-{name}-additive{ax}", dict(cls=name, shape=[1] * D, mode="additive", axis=ax)
             yield f"tr-{name}-full", dict(cls=name, shape=[2 if (k == "theta" or (k == "phi" and "theta" not in kinds)) else 1 for k in kinds], mode="full")
+        # cylinder surface carrying a radius != 1 (constructor argument, attribute, or set by CylindricalHistogram.projection("phi", "z"))
+        for how in ("ctor", "attr", "projection"):
+            yield f"tr-cylinder_surface-formula-radius-{how}", dict(cls="cylinder_surface", shape=[2, 1], mode="formula", radius=how)
 
     def declare(self, cx, p):
         kinds = CLASSES[p["cls"]][1]
@@ -294,6 +297,10 @@ class C16Transformed(Harness):
         for s in shape:
             n *= s
         x["f"] = declare_cells(cx, "f", shape, "real")
+        if p.get("radius"):
+            x["R"] = cx.pyfloat("R")
+            if cx.sym:
+                cx.assume(x["R"] > 0, x["R"] <= 100)
         return x
 
     def _build(self, E, p, edges, f, shape):
@@ -303,10 +310,21 @@ class C16Transformed(Harness):
         bins = [np.asarray(e) for e in edges]
         if len(shape) == 1:
             return cls(bins[0], np.asarray(f, dtype=float))
-        return cls(bins, np.asarray(nested(f, shape), dtype=float))
+        how = p.get("radius")
+        if how == "ctor":
+            return cls(bins, np.asarray(nested(f, shape), dtype=float), radius=self._R)
+        if how == "projection":
+            # a cylindrical histogram with one rho bin [0, R] projected onto (phi, z): the projection sets radius = R
+            cyl = sp.CylindricalHistogram([np.asarray([0.0, self._R])] + bins, np.asarray([nested(f, shape)], dtype=float))
+            return cyl.projection("phi", "z")
+        h = cls(bins, np.asarray(nested(f, shape), dtype=float))
+        if how == "attr":
+            h.radius = self._R
+        return h
 
     def drive(self, E, p, x):
         shape = p["shape"]
+        self._R = x.get("R")
         if p["mode"] == "additive":
             ax = p["axis"]
             fine_shape = list(shape)
@@ -320,7 +338,7 @@ class C16Transformed(Harness):
             coarse = self._build(E, p, coarse_edges, [0.0] * (n // 2), shape)
             return {"fine": _tolist(fine.bin_sizes), "coarse": _tolist(coarse.bin_sizes)}
         h = self._build(E, p, x["e"], x["f"], shape)
-        return {"sizes": _tolist(h.bin_sizes), "dens": _tolist(h.densities), "total": h.total}
+        return {"sizes": _tolist(h.bin_sizes), "dens": _tolist(h.densities), "total": h.total, "total_size": h.total_size if p.get("radius") else None, "cls": type(h).__name__}
 
     def _measure(self, cx, kinds, lo, hi):
         """Reference measure of the box [lo, hi] (lists of z3 terms per axis) - returns (poly, cos_pairs)."""
@@ -387,6 +405,11 @@ class C16Transformed(Harness):
             tag = ",".join(map(str, idx))
             yield f"bin_size[{tag}]", cx.eq(got, ref)
             yield f"density[{tag}]", cx.quot_eq(dens, f[idx], got)
+        if p.get("radius"):
+            lo = [e[k][0] for k in range(D)]
+            hi = [e[k][-1] for k in range(D)]
+            yield "total_size_in_own_coordinates", cx.eq(obs["total_size"], self._measure(cx, kinds, lo, hi))
+            yield "class", obs["cls"] == "CylindricalSurfaceHistogram"
         if p["mode"] == "full":
             lo = [e[k][0] for k in range(D)]
             hi = [e[k][-1] for k in range(D)]
